@@ -1,8 +1,15 @@
 (* C19 - Post-execution feedback rules are advisory only.
    Property theorems only; proofs are in Proofs/HookP.v. *)
 From Coq Require Import List Bool NArith String.
-From DippyV Require Import Base.Str Base.Verdict Gen.Tables Model.Hook Proofs.HookP.
+From DippyV Require Import Base.Str Base.Verdict Gen.Tables Model.Hook Model.HookView Proofs.HookP Proofs.HookViewP.
 Import ListNotations.
+
+(* which kind of event this is is read at the host-written level of the payload only (Model/HookView.v): a
+   hook_event_name key inside tool_input / tool_response / any other member can neither silence a pre-execution
+   event nor make a PostToolUse event answer with a decision *)
+Theorem C19_event_host_level : forall inp, event_of (host_view inp) = event_of inp /\ (post_event (host_view inp) <-> post_event inp).
+Proof. exact (fun inp => conj (event_of_view inp) (post_event_view inp)). Qed.
+Print Assumptions C19_event_host_level.
 
 Section Oracles.
   Variables S G : Type.
